@@ -222,7 +222,7 @@ def saves(out):
                 forces = rng.randint(-64, 65, size=field[0].values.size) / 256.0
                 grad = None
                 if withgrad:
-                    solid = fem.SolidBody(fem.NeoHooke(mu=1.0, bulk=2.0), field)
+                    solid = fem.SolidBody(fem.NeoHooke(mu=1.25, bulk=2.0), field)
                     grad = solid.evaluate.gradient(field)
                 fn = "sv_%s.%s" % (name, ext)
 
@@ -258,7 +258,7 @@ def main():
             region = fem.RegionHexahedron(mesh)
             field = fem.FieldContainer([fem.Field(region, dim=3)])
             bounds, lc = fem.dof.uniaxial(field, clamped=True)
-            return field, [fem.SolidBody(umat or fem.NeoHooke(mu=1.0, bulk=5.0), field)], bounds
+            return field, [fem.SolidBody(umat or fem.NeoHooke(mu=1.25, bulk=5.0), field)], bounds
         return mk
 
     def quadjob():
@@ -266,12 +266,12 @@ def main():
         region = fem.RegionQuad(mesh)
         field = fem.FieldContainer([fem.FieldPlaneStrain(region, dim=2)])
         bounds, lc = fem.dof.uniaxial(field, clamped=True)
-        return field, [fem.SolidBody(fem.NeoHooke(mu=1.0, bulk=5.0), field)], bounds
+        return field, [fem.SolidBody(fem.NeoHooke(mu=1.25, bulk=5.0), field)], bounds
 
     real_job(out, tout, "hex-3", hexjob(), [0.1, 0.2, 0.3])
     real_job(out, tout, "hex-stops-early", hexjob(), [0.1, 0.2], fail=True)
     real_job(out, tout, "hex-custom-data", hexjob(), [0.1, 0.25], custom=True)
-    real_job(out, tout, "hex-cyclic", hexjob(umat=fem.OgdenRoxburgh(fem.NeoHooke(mu=1, bulk=5), r=3, m=1, beta=0)), [0.3, 0.1, 0.2, 0.0])
+    real_job(out, tout, "hex-cyclic", hexjob(umat=fem.OgdenRoxburgh(fem.NeoHooke(mu=1.25, bulk=5), r=3, m=0.75, beta=0.125)), [0.3, 0.1, 0.2, 0.0])
     real_job(out, tout, "quad-planestrain", quadjob, [0.1, 0.2])
     for pdd, cdd in ((True, False), (False, True), (False, False)):
         real_job(out, tout, "hex-flags-p%d-c%d" % (pdd, cdd), hexjob(), [0.1, 0.2], custom=True, pdd=pdd, cdd=cdd)
